@@ -449,7 +449,17 @@ def r08_6(ctx, prog, crate):
     r05_2(Renamed(ctx, "R08.6"), prog, crate)
 
 
+def r08_8(ctx, prog, crate):
+    """(= R01.4 / R02.1) No output is dropped before the end barrier: the inputs-only sample loop passes each output to
+    black_box_drop inside the timed section, which is sound only because DeferStore::ONLY_INPUTS is exactly
+    `!needs_drop::<O>()` - with any wider condition a zero-sized output with a destructor is dropped while other threads
+    are still timing."""
+    from .C01 import only_inputs_is_not_needs_drop
+    only_inputs_is_not_needs_drop(ctx, prog, crate, "R08.8")
+
+
 def run(ctx, prog, crate):
+    r08_8(ctx, prog, crate)
     r08_6(ctx, prog, crate)
     rec = Recorder(prog, crate)
     if not ctx.anchor("R08.1", "sample recorder body", 1 if rec.body is not None else 0, 1):
